@@ -195,8 +195,21 @@ def check_config(ctx, tr, rng, k, j, mon):
         r = dpred((relp + '/') if 'DIRPATHNAME' in fn else name)
         return False if r is None else r
 
+    # the root may be spelled with a trailing separator, or relative to the working directory
+    spelling = rng.choice(['plain', 'plain', 'trailing-sep', 'double-sep', 'relative', 'dot-relative'])
+    cwd0 = os.getcwd()
+    root_arg = root
+    if spelling == 'trailing-sep':
+        root_arg = root + '/'
+    elif spelling == 'double-sep':
+        root_arg = root + '//'
+    elif spelling in ('relative', 'dot-relative'):
+        os.chdir(os.path.dirname(root))
+        root_arg = os.path.basename(root) if spelling == 'relative' else './' + os.path.basename(root) + '/'
+    wit['root_spelling'] = spelling
+    ctx.count('root_spelling_' + spelling)
     try:
-        w = WM.WcMatch(root, ftext, dtext, wmflags(fn))
+        w = WM.WcMatch(root_arg, ftext, dtext, wmflags(fn))
         mon.arm(budget=5000)
         try:
             got = w.match()
@@ -204,9 +217,14 @@ def check_config(ctx, tr, rng, k, j, mon):
             events = mon.disarm()
         skipped = w.get_skipped()
         got2 = list(w.imatch())
+        got = [os.path.abspath(p) for p in got]
+        got2 = [os.path.abspath(p) for p in got2]
+        events = [os.path.abspath(e) if not os.path.isabs(e) else e for e in events]
     except Exception as e:  # noqa: BLE001
         ctx.disagree(f'WcMatch raised {type(e).__name__}', dict(wit, exception=repr(e)[:200]))
         return
+    finally:
+        os.chdir(cwd0)
     exp, exp_skipped, exp_listed, stats = reference_walk(root, fn, file_pred, dir_excluded)
     ctx.count('symlink_dirs_seen', stats['symlink_dirs'])
     ctx.count('hidden_dirs_seen', stats['hidden_dirs'])
@@ -224,7 +242,7 @@ def check_config(ctx, tr, rng, k, j, mon):
     ctx.count('skipped_counter_checks')
     if skipped != exp_skipped:
         ctx.disagree('get_skipped() differs from files visited and not returned', dict(wit, get_skipped=skipped, expected=exp_skipped))
-    listed = [lexical_rel(root, e.rstrip('/')) for e in events]
+    listed = [lexical_rel(root, os.path.normpath(e)) for e in events]
     ctx.count('directories_listed', len(listed))
     if sorted(x for x in listed if x is not None) != sorted(exp_listed) or None in listed:
         ctx.disagree('directories listed by WcMatch differ from the directories the filtered walk keeps',
